@@ -786,7 +786,14 @@ func c07() {
 	parallel(64, func(shard int) {
 		// every shard owns private universes: mined blocks extend them dynamically
 		bases := map[univ.Regime]*univ.Universe{univ.RegimeV1: c07Base(univ.RegimeV1), univ.RegimeV2: c07Base(univ.RegimeV2)}
+		static := map[univ.Regime]int{univ.RegimeV1: len(bases[univ.RegimeV1].Nodes), univ.RegimeV2: len(bases[univ.RegimeV2].Nodes)}
 		for ji := shard; ji < len(jobs); ji += 64 {
+			// blocks mined by the previous sequence are not needed any more (each keeps a reference ledger)
+			for reg, u := range bases {
+				c07mu.Lock()
+				u.Truncate(static[reg])
+				c07mu.Unlock()
+			}
 			if run.Expired() {
 				run.Cap("time budget: not all wallet sequences run")
 				return
@@ -817,7 +824,7 @@ func c07() {
 					}
 				}()
 				w := newC07World(bases[j.reg], j.opts)
-				defer w.w.Close()
+				defer func() { w.w.Close() }() // the wallet at the end of the run ("restart" replaces it)
 				w.setup(j.setup)
 				if v := w.agreement(); v != "" {
 					viol = v
